@@ -58,7 +58,8 @@ Src(def) ==
   \o <<Line("var", "", "{{v}}", "")>>
   \o (IF def.rich THEN RichLines ELSE <<>>)
 
-HdrRaw == "HDR {{v}}"                  \* every document template carries this page header
+HdrRaw == "HDR {{v}}{{#if c}} ON{{/if}}"   \* every document template carries this page header (a variable and a conditional)
+HdrOut(d) == "HDR " \o d.v \o (IF d.c THEN " ON" ELSE "")
 \* the text a load call extracts: a document contributes its paragraphs, its header text
 \* and a final newline (hence one empty last line)
 ContentSrc(def) ==
@@ -104,7 +105,7 @@ TextLine(ln, res, d) ==
     [] ln.t = "each" -> EachOut(d.items)
     [] ln.t = "if"   -> (IF d.c THEN "yes" ELSE "")
     [] ln.t = "img"  -> ImgOut
-    [] ln.t = "hdr"  -> "HDR " \o d.v
+    [] ln.t = "hdr"  -> HdrOut(d)
     [] OTHER         -> "?"
 
 TextLines(rootdef, res, d) ==
@@ -133,7 +134,7 @@ RenderErr == [st |-> "err", paras |-> <<>>, hdr |-> ""]
 RenderWith(def, rootdef, res, d, e) ==
   IF def.k = "str" THEN Rendered(TextLines(rootdef, res, d), "")
   ELSE IF e = "doc" THEN Rendered(BaseLines(def) \o TextLines(rootdef, res, d), HdrRaw)
-  ELSE Rendered(InPlace(def, d), "HDR " \o d.v)
+  ELSE Rendered(InPlace(def, d), HdrOut(d))
 
 PureRender(v, d, e) ==
   IF v.id = 0 THEN RenderErr ELSE RenderWith(v.def, RootOf(v).def, PureRes(v), d, e)
